@@ -710,6 +710,14 @@ class Inliner:
                     s.body = [ast.copy_location(inner, s)]
                 it = s.items[0]
                 ce = it.context_expr
+                existing = None
+                if isinstance(ce, ast.Name):
+                    # with v:   where v = C(args) was bound (once) before
+                    defs = [a_ for a_ in _walk_same_function(fn) if isinstance(a_, ast.Assign) and len(a_.targets) == 1 and isinstance(a_.targets[0], ast.Name) and a_.targets[0].id == ce.id]
+                    stores = [n_ for n_ in ast.walk(fn) if isinstance(n_, ast.Name) and n_.id == ce.id and isinstance(n_.ctx, (ast.Store, ast.Del))]
+                    if len(defs) == 1 and len(stores) == 1 and isinstance(defs[0].value, ast.Call) and isinstance(defs[0].value.func, ast.Name):
+                        existing = ce.id
+                        ce = defs[0].value
                 if not (isinstance(ce, ast.Call) and isinstance(ce.func, ast.Name)):
                     continue
                 nc = self._new_class(mn, ce.func.id)
@@ -733,15 +741,22 @@ class Inliner:
                 else:
                     self.counter += 1
                     v = "_cm%d" % self.counter
+                if existing is not None:
+                    alias = v if it.optional_vars is not None and v != existing else None
+                    v = existing
 
                 def call(meth, args):
                     c = ast.Call(func=ast.Attribute(value=ast.Name(id=v, ctx=ast.Load()), attr=meth, ctx=ast.Load()), args=args, keywords=[])
                     return ast.Expr(value=c)
                 new = [ast.Assign(targets=[ast.Name(id=v, ctx=ast.Store())], value=ce), call("__enter__", []),
                        ast.Try(body=s.body, handlers=[], orelse=[], finalbody=[call("__exit__", [ast.Constant(value=None) for _ in range(3)])])]
+                if existing is not None:
+                    new = new[1:]
+                    if alias:
+                        new.insert(1, ast.Assign(targets=[ast.Name(id=alias, ctx=ast.Store())], value=ast.Name(id=v, ctx=ast.Load())))
                 new = [ast.fix_missing_locations(ast.copy_location(x, s)) for x in new]
                 lst[i - 1:i] = new
-                i += 2
+                i += len(new) - 1
                 changed = True
                 self.stats.setdefault("with", []).append(mn + "." + cd.name)
         return changed
@@ -1055,6 +1070,15 @@ class Inliner:
             q = modname + "." + f.value.id + "." + f.attr
             if q in self.index and isinstance(self.index[q][1], ast.ClassDef):
                 return q, None
+        if isinstance(f, ast.Attribute) and _simple_arg(f.value) and not f.attr.startswith("__"):
+            # <object>.helper(...): a method outside the inventory whose name is defined exactly once in the package (and is nobody's
+            # attribute otherwise) can only be that one
+            cands = [q for q, e in self.index.items() if e[1] is not None and q.endswith("." + f.attr) and q not in self.known]
+            if len(cands) == 1 and not any(q.endswith("." + f.attr) for q in self.known):
+                cn = cands[0].split(".")[-2]
+                decs = [ast.unparse(d) for d in self.index[cands[0]][0].decorator_list]
+                if "staticmethod" not in decs and "classmethod" not in decs and not self._subs.get(cn) and "property" not in " ".join(decs):
+                    return cands[0], f.value
         return None, None
 
     def _as_lambdas(self):
